@@ -237,9 +237,10 @@ func runRelaxed(c Case, rx relax) (inf info, err error) {
 // without argument) and absent*() - all rooted in pint's constant folding (AlwaysReturns / KnownReturn /
 // ReturnedNumber / calculateStaticReturn):
 //
-//	"const-or-lhs"                `X or Y`, X without any vector selector: Y is marked dead ("the left hand side
-//	                              always returns something") yet `or` keeps every Y series whose label set differs
-//	                              from those of X
+//	"const-or-lhs"                `X or Y`, X holding a constant (vector(), date function without argument) or no vector
+//	                              selector at all: Y is marked dead ("the left hand side always returns something")
+//	                              yet `or` keeps every Y series whose label set differs from those of X (and X can
+//	                              be empty when the constant is joined with a selector)
 //	"const-cmp-bool"              a comparison with `bool` between selector-free operands: folded to "never returns
 //	                              anything" when false, but with `bool` it returns 0
 //	"const-value-rewrapped"       a selector-free operand of a comparison in which the constant passes through
@@ -347,7 +348,7 @@ func syntacticClasses(node promParser.Node) map[string]bool {
 			}
 		case *promParser.BinaryExpr:
 			lsel, rsel := hasSelector(v.LHS), hasSelector(v.RHS)
-			if v.Op == promParser.LOR && !lsel {
+			if v.Op == promParser.LOR && (!lsel || hasConst(v.LHS)) {
 				out["const-or-lhs"] = true
 			}
 			if v.ReturnBool && !lsel && !rsel {
@@ -424,8 +425,8 @@ const dbsPerExpr = 4
 
 func genDBs(t *rapid.T) []pq.DB {
 	u := pq.DefaultUniverse()
-	dbs := []pq.DB{pq.GenDB(t, "db0", pq.DBOpts{U: u, Shape: "dense"})}
-	for i := 1; i < dbsPerExpr; i++ {
+	dbs := []pq.DB{pq.GenDB(t, "db0", pq.DBOpts{U: u, Shape: "dense"}), pq.GenDB(t, "db1", pq.DBOpts{U: u, Shape: "one"})}
+	for i := 2; i < dbsPerExpr; i++ {
 		dbs = append(dbs, pq.GenDB(t, fmt.Sprintf("db%d", i), pq.DBOpts{U: u, Gaps: true}))
 	}
 	return dbs
